@@ -294,8 +294,11 @@ func lexRun(p *core.Program, fn *core.FuncRef, fieldHook func(*absint.State, abs
 						ok = true
 					}
 				}
-				if !ok {
-					st.Emit("WRONG-BOUND loop runs to "+parts[1]+" although the longer sequence is "+strings.Join(longer, "/"), 0)
+				// which bound the loop uses is not judged here: a loop that stops with the shorter sequence is judged
+				// by what is returned after it (the lengths must then decide), one that runs past a sequence's end by
+				// OUT-OF-RANGE. Before the first iteration the strictly longer sequence certainly has an element.
+				if ok && lenRel != absint.EQ {
+					return true, true
 				}
 			}
 			return false, false
@@ -345,6 +348,15 @@ func lexRun(p *core.Program, fn *core.FuncRef, fieldHook func(*absint.State, abs
 			case "gt":
 				return absint.Int(1), true
 			default:
+				// the iteration class says one sequence has ended; if this path got here by assuming the loop
+				// condition `index < len(that sequence)` true, the path does not exist
+				ended := map[string]string{"endA": la, "endB": lb}[st.IterNow]
+				for atom, val := range st.Assumed {
+					if val && strings.Contains(atom, "@L") && strings.HasSuffix(atom, " < "+ended+")") {
+						st.Emit("INFEASIBLE", call.Pos())
+						return absint.Int(0), true
+					}
+				}
 				st.Emit("OUT-OF-RANGE element comparison in class "+st.IterNow, call.Pos())
 				return absint.S("oob"), true
 			}
@@ -355,12 +367,30 @@ func lexRun(p *core.Program, fn *core.FuncRef, fieldHook func(*absint.State, abs
 }
 
 // lexCheck validates the outcomes of lexRun against the lexicographic order.
-func lexCheck(outs []*absint.Outcome, result func(*absint.Outcome) (int64, bool), perClass map[string]int64, allEqual int64) (bool, string) {
+func lexCheck(outs []*absint.Outcome, result func(*absint.Outcome) (int64, bool), perClass map[string]int64, allEqual int64, lenRel ...absint.Rel) (bool, string) {
+	// when the loop ends with every compared position equal, the shorter sequence (if any) comes first
+	if len(lenRel) == 1 {
+		switch lenRel[0] {
+		case absint.LT:
+			allEqual = perClass["endA"]
+		case absint.GT:
+			allEqual = perClass["endB"]
+		}
+	}
 	if len(outs) == 0 {
 		return false, "no outcome"
 	}
 	returns := 0
 	for _, o := range outs {
+		infeasible := false
+		for _, e := range o.Events {
+			if e.Name == "INFEASIBLE" {
+				infeasible = true
+			}
+		}
+		if infeasible {
+			continue
+		}
 		for _, e := range o.Events {
 			if strings.HasPrefix(e.Name, "OUT-OF-RANGE") {
 				return false, "an element past the end of a sequence is compared: " + o.String()
@@ -380,6 +410,14 @@ func lexCheck(outs []*absint.Outcome, result func(*absint.Outcome) (int64, bool)
 			v, ok := result(o)
 			if !ok {
 				return false, "non-constant result: " + o.String()
+			}
+			if o.Ref == "exit:decided:endA" || o.Ref == "exit:decided:endB" {
+				// the loop stopped because the shorter sequence ended (common-prefix form): the lengths decide
+				cls := strings.TrimPrefix(o.Ref, "exit:decided:")
+				if v != perClass[cls] {
+					return false, fmt.Sprintf("a sequence that ends first (%s) with all earlier positions equal must give %d, got %d: %s", cls, perClass[cls], v, o.String())
+				}
+				continue
 			}
 			if strings.HasPrefix(o.Ref, "exit:decided:") {
 				return false, "the loop ends normally after a non-equal element: " + o.String()
@@ -441,7 +479,7 @@ func checkCompareListArms(c *core.Ctx) {
 					return 0, false
 				}
 				return absint.AsInt(o.Values[0])
-			}, map[string]int64{"endA": -1, "endB": 1, "lt": -1, "gt": 1}, 0)
+			}, map[string]int64{"endA": -1, "endB": 1, "lt": -1, "gt": 1}, 0, lenRel)
 			c.Decide(ok, "ABS1L", key, cmp.Decl.Pos(), len(outs), fmt.Sprintf("%d paths agree with the lexicographic reference", len(outs)), why)
 		}
 	}
